@@ -72,7 +72,8 @@ def conv_obs1(res):
             out.append(("r", rec))
         else:
             line = it["s"]
-            out.append(("s", line[:-1] if line.endswith("\n") else line))
+            # text ending in a newline is a printed line; anything else (printn, an empty dump) is raw text
+            out.append(("s", line[:-1]) if line.endswith("\n") else ("t", line))
     return {"class": "ok", "out": out}
 
 
@@ -84,7 +85,8 @@ def run_batch(ctx, cases, per_case_timeout=15):
     i = 0
     while i < len(cases):
         chunk = cases[i:]
-        inp = "".join(json.dumps({"prog": c["text"], "inputs": [[list(kv) for kv in r] for r in c["inputs"]], "quiet": c["quiet"]}) + "\n" for c in chunk)
+        inp = "".join(json.dumps({"prog": c.get("text", ""), "inputs": [[list(kv) for kv in r] for r in c["inputs"]], "quiet": c.get("quiet", False),
+                                  "chain": [{"prog": v["text"], "quiet": v["quiet"]} for v in c.get("chain", [])]}) + "\n" for c in chunk)
         rc, out, err = sh([ctx.implrun(), "c14-put"], inp=inp, timeout=60 + per_case_timeout + len(chunk) // 4)
         lines = out.split("\n")
         k = 0          # cases answered
@@ -179,7 +181,7 @@ def input_value(s):
 
 
 def cq_outs(out):
-    return "[" + ";\n ".join(("(ORec %s)" % cq_amap(x)) if t == "r" else ("(OLine %s)" % coq_bytes(x.encode("utf-8"))) for t, x in out) + "]"
+    return "[" + ";\n ".join(("(ORec %s)" % cq_amap(x)) if t == "r" else ("(%s %s)" % ("OLine" if t == "s" else "OText", coq_bytes(x.encode("utf-8")))) for t, x in out) + "]"
 
 
 def case_term(variant_bits, prog, quiet, inputs, obs):
@@ -261,7 +263,7 @@ def probes(ctx):
          [("s", "a:1"), ("s", "b:2")], "reference-dsl-control-structures.md: bound to a copy of the sub-map as it was before the loop started"),
         ("for-loop-over-map-variable-iterates-live-map", 'end{m = {"a":1,"b":2}; for (k in m) { m["c"] = 3; unset m["b"]; print k } for (k, v in m) { m[k] = v + 10; print v }}', [],
          [("s", "a"), ("s", "b"), ("s", "1"), ("s", "3")], "same, local map, single-variable loop"),
-        # pending: in-place conversion of a scalar FIELD / OOSVAR is seen through a local bound to it by reference
+        # repaired (ad8618c0f): in-place conversion of a scalar FIELD / OOSVAR was seen through a local bound to it by reference
         ("indexed-assign-on-scalar-field-or-oosvar-changes-aliased-local", 'c = $a; $a["k"] = 1; $t = c', [[("a", "5")]],
          [R(("a", ("map", [("k", ("int", 1))])), ("t", ("int", 5)))], "assignments are by value: c keeps the value it was assigned"),
         ("indexed-assign-on-scalar-field-or-oosvar-changes-aliased-local", 'end{@s = 1; c = @s; @s["k"] = 2; print c}', [], [("s", "1")],
@@ -284,6 +286,14 @@ def probes(ctx):
         # fix 206974ae4 (clone c14-repo): $[[n]] / $[[[n]]] read in a function called from an end block dereferenced the nil record
         ("positional-read-without-record-panics", 'func f() { return typeof($[[1]]) . typeof($[[[1]]]) } end { print f() }', [], [("s", "absentabsent")],
          "reference-dsl-variables.md: field references outside the record context are absent"),
+        # fix 082c1d3f0: NF in an end block (or in a function called from one) dereferenced the nil record
+        ("nf-read-without-record-panics", 'func f() { return typeof(NF) } end { print typeof(NF) . f() }', [], [("s", "absentabsent")],
+         "reference-dsl-variables.md: built-in variables; there is no current record in begin/end blocks"),
+        # fix 5117208f0: a function literal inside a subr may return a value
+        ("function-literal-in-subr-cannot-return-value", 'subr s(arr a) { print apply(a, func(e) { return e * 2 }) } end { call s([1, 2, 3]) }', [], [("s", "[2, 4, 6]")],
+         "reference-dsl-user-defined-functions.md: function literals return values wherever they are written"),
+        ("function-literal-in-subr-cannot-return-value", 'subr s(arr a) { print fold(a, func(acc, e) { return acc + e }, 0); return } end { call s([1, 2, 3]); print "after" }', [],
+         [("s", "6"), ("s", "after")], "same, with a bare return of the subroutine itself after the literal"),
     ]
     cases = [{"text": prog + "\n", "inputs": ins, "quiet": False} for _, prog, ins, _, _ in table]
     obs = [run_batch(ctx, [c])[0] for c in cases]     # one process each: a corrupted singleton must not leak into the next witness
@@ -295,6 +305,23 @@ def probes(ctx):
         if not good:
             ctx.violation({"class": cls, "program": "mlr put '%s'" % prog, "input": ins, "observed": {k: o.get(k) for k in ("class", "out", "stderr")},
                            "expected": exp, "doc": doc})
+    # fix 41089c1d4: the process-wide callsite cache of the higher-order functions was keyed by the function NAME: in a
+    # then-chain the second put called the first put's function of the same name.  One process, several verbs.
+    CH = "hof-calls-same-named-function-of-earlier-verb"
+    mk = lambda body: 'func f(e) { return %s } func g(acc, e) { return %s } func p(e) { return %s } func c(a1, b1) { return %s } ' % body
+    v1 = mk(("e + 1", "acc + e", "e > 1", "a1 - b1")) + '$x = apply([1, 2, 3], f); $y = fold([1, 2, 3], g, 0); $z = select([1, 2, 3], p); $w = sort([1, 3, 2], c); $u = any([1, 2, 3], p); $v = every([1, 2, 3], p); $r = reduce([1, 2, 3], g)'
+    v2 = mk(("e * 10", "acc * e", "e < 2", "b1 - a1")) + '$x2 = apply([1, 2, 3], f); $y2 = fold([1, 2, 3], g, 1); $z2 = select([1, 2, 3], p); $w2 = sort([1, 3, 2], c); $u2 = any([5, 6], p); $v2 = every([0, 1], p); $r2 = reduce([1, 2, 3], g)'
+    A = lambda *xs: ("arr", [("int", x) for x in xs])
+    expect = [R(("a", ("int", 1)), ("x", A(2, 3, 4)), ("y", ("int", 6)), ("z", A(2, 3)), ("w", A(1, 2, 3)), ("u", ("bool", True)), ("v", ("bool", False)), ("r", ("int", 6)),
+                ("x2", A(10, 20, 30)), ("y2", ("int", 6)), ("z2", A(1)), ("w2", A(3, 2, 1)), ("u2", ("bool", False)), ("v2", ("bool", True)), ("r2", ("int", 6)))]
+    o = run_batch(ctx, [{"chain": [{"text": v1 + "\n", "quiet": False}, {"text": v2 + "\n", "quiet": False}], "inputs": [[("a", "1")]]}])[0]
+    ctx.count(("probe", "chain", v1, v2))
+    good = o["class"] == "ok" and o.get("out") == expect
+    res[CH] = bool(good)
+    if not good:
+        ctx.violation({"class": CH, "program": "mlr put '%s' then put '%s'" % (v1, v2), "input": [[("a", "1")]],
+                       "observed": {k: o.get(k) for k in ("class", "out", "stderr")}, "expected": expect,
+                       "doc": "reference-verbs.md put: each put in a then-chain has its own functions; reference-dsl-higher-order-functions.md"})
     ctx.cov["witness_probes"] = res
     ctx.cov["variant_selected"] = {"filter_per_record": True}
     return 1
@@ -317,7 +344,7 @@ def run(ctx):
         levels = P.gen_precedence(REPO)
     ctx.cov["precedence_levels_from_bnf"] = [[ops, a, k] for ops, a, k in levels]
     forbidden_gate(ctx, ["Base", "C14"])
-    ok, why = check_props(ctx, "C14/Props.v", ["C14/Harness.vo", "C14/Proofs.vo", "C14/StackProofs.vo", "C14/PrecProofs.vo", "C14/InterpProofs.vo", "C14/ScopeProofs.vo", "C14/DepthProofs.vo", "C14/ArrayProofs.vo"])
+    ok, why = check_props(ctx, "C14/Props.v", ["C14/Harness.vo", "C14/Proofs.vo", "C14/StackProofs.vo", "C14/PrecProofs.vo", "C14/InterpProofs.vo", "C14/ScopeProofs.vo", "C14/DepthProofs.vo", "C14/ArrayProofs.vo", "C14/HofProofs.vo"])
     bad, trees, block = P.behavioural_tie(ctx, 150 if ctx.tier == "quick" else 3000)
     if bad:
         ctx.violation(bad, found_input="expression" in bad)
@@ -334,6 +361,7 @@ def run(ctx):
     stack_tie(ctx)
     cells(ctx, bits)
     correspondence(ctx, bits)
+    chain_correspondence(ctx)
     oracles(ctx)
 
 
@@ -559,7 +587,7 @@ def cells(ctx, bits):
                     break
 
 
-NEW_CONSTRUCTS = ("arrlit", "slice", "posname", "posval", "assignposname", "assignposval", "emitf")
+NEW_CONSTRUCTS = ("arrlit", "slice", "posname", "posval", "assignposname", "assignposval", "emitf", "hof", "emitp", "emitlashed", "printn", "eprint", "dump", "edump", "nf")
 
 
 def constructs_of(x, acc):
@@ -641,6 +669,41 @@ def correspondence(ctx, bits):
                            "program": c["text"], "inputs": c["inputs"], "quiet": c["quiet"],
                            "observed": {k: o.get(k) for k in ("class", "out", "stderr")}, "variant_bits": bits,
                            "coq_case": case_term(bits, c["prog"], c["quiet"], c["inputs"], o)})
+
+
+def chain_correspondence(ctx):
+    """then-chains of several put verbs sharing function names, run in ONE process (process-wide caches) against the
+    composition of the verbs' models"""
+    n = 40 if ctx.tier == "quick" else 600
+    cases = [G.gen_chain(ctx.rng) for _ in range(n)]
+    with ctx.timed("impl"):
+        obs = run_all(ctx, cases)
+    terms, meta = [], []
+    for c, o in zip(cases, obs):
+        ctx.dist("chain_impl_" + o["class"])
+        if o["class"] == "panic":
+            ctx.violation({"broken": "panic", "chain": [v["text"] for v in c["chain"]], "inputs": c["inputs"], "stderr": o["stderr"], "class": "panic"})
+            continue
+        if o["class"] not in ("ok", "mlr_error"):
+            continue
+        ins = "[" + "; ".join(cq_amap([(k, input_value(v)) for k, v in r]) for r in c["inputs"]) + "]"
+        ps = coq_list("(%s, %s)" % (G.coq_prog(v["prog"]), coq_bool(v["quiet"])) for v in c["chain"])
+        outs, status = (cq_outs(o["out"]), 0) if o["class"] == "ok" else ("[]", 1)
+        terms.append("(%s, %s, %s, %s)" % (ps, ins, status, outs))
+        meta.append((c, o))
+    with ctx.timed("coq_cases"):
+        codes, err = coq_eval_codes(ctx, "C14chain", terms, fn="classify_chain", ty="ccase")
+    ctx.cov["chain_correspondence"] = {"chains": len(cases), "evaluated": len(terms), "codes": {str(k): codes.count(k) for k in set(codes)}}
+    if err:
+        ctx.violation({"broken": "chain-correspondence-evaluation", "detail": err[-2000:]}, found_input=False)
+    reported = 0
+    for (c, o), code in zip(meta, codes):
+        ctx.count(("chain", tuple(v["text"] for v in c["chain"]), str(c["inputs"])), nontrivial=(code == 0))
+        if code == 1 and reported < 3:
+            reported += 1
+            ctx.violation({"broken": "correspondence C14.Harness.classify_chain (then-chain of put verbs sharing function names)",
+                           "program": " then ".join("put '%s'" % v["text"] for v in c["chain"]), "input": c["inputs"],
+                           "observed": {k: o.get(k) for k in ("class", "out", "stderr")}})
 
 
 # ------------------------------------------------------------------ the property itself, evaluated on the implementation's outputs
